@@ -171,6 +171,7 @@ OPS = [
   ("nonnumeric_nr", "*", lambda it, info, rng: set_tab(it, "nr", rng.choice(["abc", "2.5", "1e3", "ten", ""]))),
   ("nonnumeric_cutoff", "*", lambda it, info, rng: set_tab(it, "cutoff", rng.choice(["abc", "1,5", "10 Angstrom"]))),
   ("one_row_grid", "*", lambda it, info, rng: set_tab(it, "nr", "1")),
+  ("dlpoly_four_row_grid", "dlpoly", lambda it, info, rng: set_tab(it, "nr", "4")),   # delpot = cutoff/(nr-4) does not exist
   ("nonfinite_cutoff", "*", lambda it, info, rng: set_tab(it, "cutoff", rng.choice(["nan", "inf", "-inf", "NaN", "Infinity"]))),
   ("nonfinite_dr", "*", lambda it, info, rng: set_tab(set_tab(it, "cutoff", None), "dr", rng.choice(["nan", "inf"]))),
   ("nonfinite_dr_with_cutoff", "*", lambda it, info, rng: set_tab(set_tab(it, "nr", None), "dr", rng.choice(["nan", "inf"]))),
@@ -316,6 +317,11 @@ def gen_cases(rng, tier):
       kind = bm.kind_of(target)
       cases.append({"kind": "valid", "target": target, "seed": seed, "route": "main" if ti % 2 else "inproc"})
       for oi, (name, kinds, fn) in enumerate(OPS):
+        if kinds == "dlpoly":
+          if target not in ("DLPOLY", "DL_POLY"):
+            continue
+          cases.append({"kind": "mutant", "op": name, "target": target, "seed": seed, "route": "main" if rep % 2 else "inproc"})
+          continue
         if kinds != "*" and kind not in kinds.split():
           continue
         # quick: every operator against every kind (one target per kind, rotating); thorough: every target
